@@ -757,7 +757,8 @@ class Mesh2DTopology:
             )
             return False
 
-        if '_FillValue' in data_array.encoding:
+        # Without an edge dimension there is no edge count to compare with
+        if '_FillValue' in data_array.encoding and self.has_edge_dimension:
             fill_value = data_array.encoding['_FillValue']
 
             lower_bound = _get_start_index(data_array)
